@@ -6,6 +6,7 @@
     What a formatter prints is abstracted to one report line (line, column, rule code) per violation.
     The violation lists themselves (the library's [LintedFile]) are inputs. Executable definitions only. *)
 From Sq Require Import Base.Bytes.
+From Coq Require Export ZArith.
 
 Record viol := {
   v_line : N; v_col : N; v_rule : option str;     (* [None]: lexing / parsing / noqa-directive errors *)
@@ -102,6 +103,58 @@ Definition run_lint_stdin (fmt : format) (vs : list viol) : option (N * list rli
   | None => None
   | Some (rep, fail) => Some (if fail then 1 else 0, rep)
   end.
+
+(* ---------- the formatter as one object shared by every file of a run *)
+
+(** One formatter lives for the whole run: [lint_paths] hands it the linted files one after the other (in the
+    order in which the worker pool finishes them) and [run_lint] reads [has_fail()] at the end. [has_fail] is a
+    field that the dispatches mutate (human, GitHub) or a function of the diagnostics stored so far (JSON).
+    The human formatter also carries the configured verbosity ([verbose] in the [sqruff] section; documented
+    range 0-2): above 0 every file gets a header line, "PASS" for a file without failing violation; below 0
+    [dispatch_file_violations] returns before doing anything. *)
+
+(** the header line of a file in the human format: [Some true] = "PASS", [Some false] = "FAIL" *)
+Definition header := option bool.
+
+(** [format_file_violations] at verbosity [verb]: printed lines and header ([format_filename fname (fails == 0)]) *)
+Definition human_file_v (verb : Z) (vs : list viol) : list rline * header :=
+  if (verb <? 0)%Z then ([], None)
+  else
+    let fails := length (filter is_fail vs) in
+    let warns := length (filter v_warning vs) in
+    let show := negb (Nat.eqb (fails + warns) 0) in
+    (if show then map rl (sort_by cmp_lp vs) else [],
+     if (0 <? verb)%Z || show then Some (Nat.eqb fails 0) else None).
+
+(** one dispatch: what is printed for the file and the value of [has_fail] afterwards, given its value before.
+    Human: [format_filename] stores [true] when it formats a FAIL header and does not touch the field otherwise.
+    GitHub: stores [true] for every violation that is neither ignored nor a warning.
+    JSON: [has_fail()] looks for a diagnostic of severity Error in everything collected so far. *)
+Definition step (verb : Z) (fmt : format) (st : bool) (vs : list viol) : (list rline * header) * bool :=
+  match fmt with
+  | Human => let '(r, h) := human_file_v verb vs in
+             ((r, h), match h with Some false => true | _ => st end)
+  | Github => ((map rl (sort_by cmp_lpc vs), None), if existsb is_fail vs then true else st)
+  | Json => ((map rl vs, None), if existsb (fun v => negb (v_warning v)) vs then true else st)
+  end.
+
+(** the files in dispatch order, threading the state of the formatter *)
+Fixpoint dispatch_seq (verb : Z) (fmt : format) (st : bool) (files : list (list viol))
+  : list (list rline * header) * bool :=
+  match files with
+  | [] => ([], st)
+  | vs :: files' =>
+      let '(rh, st') := step verb fmt st vs in
+      let '(rs, stf) := dispatch_seq verb fmt st' files' in
+      (rh :: rs, stf)
+  end.
+
+(** [run_lint] with the formatter built by [linter(config, format, ..)] (verbosity from the configuration) *)
+Definition run_lint_v (verb : Z) (fmt : format) (files : list (list viol)) : N * list (list rline * header) :=
+  let '(rs, st) := dispatch_seq verb fmt false files in (if st then 1 else 0, rs).
+
+Definition run_lint_stdin_v (verb : Z) (fmt : format) (vs : list viol) : N * (list rline * header) :=
+  let '(rh, st) := step verb fmt false vs in (if st then 1 else 0, rh).
 
 (* ---------- fix *)
 
